@@ -25,7 +25,19 @@ pub struct Case {
   pub sample: Option<Value>,
 }
 
+thread_local! {
+  static LOCAL_THREADS: std::cell::Cell<Option<usize>> = const { std::cell::Cell::new(None) };
+}
+
+/// Limit the worker count used by explorers started from this thread (for nested parallelism).
+pub fn set_local_threads(n: Option<usize>) {
+  LOCAL_THREADS.with(|c| c.set(n));
+}
+
 pub fn threads() -> usize {
+  if let Some(n) = LOCAL_THREADS.with(|c| c.get()) {
+    return n;
+  }
   std::env::var("MC_THREADS")
     .ok()
     .and_then(|s| s.parse().ok())
